@@ -6,7 +6,7 @@ CONSTANTS
   HCap = 64
   Parts = 1
   WsMode = FALSE
-  MaxPub = 5
+  MaxPub = 4
   MaxRead = 3
   MaxStall = 2
   MaxSweep = 2
